@@ -389,6 +389,44 @@ def run_frames(rec: rf.FwdRecorder, game, scene: rf.Scene, topo: List[Dict[str, 
     return out
 
 
+def run_faults(topo: List[Dict[str, Any]], label: str, chk: common.Check, rng: random.Random, budget: int = 10) -> Tuple[List[Dict[str, Any]], int]:
+    """Termination under faults: some nodes are powered off BEFORE any traffic (cold caches everywhere: nothing has been
+    heard from them), then every host that is still on sends an echo to every other host's address.  Whatever the
+    delivery, handling the packet must end without an exception (only that is judged here; delivery with all nodes up is
+    judged by the frames and exchanges above).  Returns (traces of the sends that did not end, number of sends)."""
+    names = [n["name"] for n in topo if n["kind"] != "switch"]
+    hosts = [n for n in topo if n["kind"] == "host"]
+    routers = [n["name"] for n in topo if n["kind"] == "router"]
+    sets = [[x] for x in names] + [[h["name"], r] for h in hosts for r in routers]
+    rng.shuffle(sets)
+    out, sends = [], 0
+    for off in sets[:budget]:
+        game = scenarios.build(rf.cfg_from_topo(topo))
+        scene = rf.Scene(game.simulation.network, order=[n["name"] for n in topo])
+        for x in off:
+            game.simulation.apply_request(["network", "node", x, "shutdown"])
+        for _ in range(6):
+            tick(game)
+        clear_caches(scene)
+        for h in hosts:
+            if h["name"] in off:
+                continue
+            for g in hosts:
+                if g["name"] == h["name"]:
+                    continue
+                dip = rf.embed(g["ifs"][0]["addr"])
+                sends += 1
+                st, val = guarded(lambda: craft_echo(scene.obj[h["name"]], dip, 64))
+                guarded(lambda: tick(game))
+                if st != "ok":
+                    stim = {"scenario": label + "+faults", "kind": "crafted-echo", "src": h["name"], "dst_ip": dip, "ttl": 64, "off": off,
+                            "exception": str(val)}
+                    out.append({"cfg": scene.cfg("exchange"), "ev": [rf.blank(st, kind="crafted-echo", src=scene.by_name[h["name"]])],
+                                "meta": {"kind": "crafted-echo", "scenario": label + "+faults"}, "stimulus": stim})
+        chk.add_case(("faults", label, tuple(off)))
+    return out, sends
+
+
 def fwd_sig(tr, event, stuck):
     """module / event / clause are added by judge_traces; here: what kind of node, what kind of frame, which family."""
     nodes = tr["cfg"]["nodes"]
@@ -632,6 +670,9 @@ def main(tier: str, seed: int) -> int:
                         emitted.add((label, i + 1, d, t))
         hosts = [n["name"] for n in topo if n["kind"] == "host"]
         ftraces += run_exchanges(rec, pair_builder(topo), hosts, KINDS, label, chk)
+        ft, ns = run_faults(topo, label, chk, rng, budget=8 if not deep else 40)
+        ftraces += ft
+        chk.cov["sends_with_nodes_powered_off"] = chk.cov.get("sends_with_nodes_powered_off", 0) + ns
     for label, cfg, hosts in extra_scenes():
         ftraces += run_exchanges(rec, extra_builder(cfg), hosts, KINDS, label, chk)
     missing = [m for m in model_frames if m not in emitted]
